@@ -261,6 +261,21 @@ package encoding
 //@ spec wkAllConsumedJSON(o *structFieldsJSON, t reflect.Type, n int) bool = forall(j, 0, n, wkDeclared(t, j, "json") ==> !inDom(o.Fields, wkKeyStr(t, j, "json")))
 //@ spec wkShrinksJSON(o *structFieldsJSON) bool = forallT(k, string, inDom(o.Fields, k) ==> old(inDom(o.Fields, k)) && o.Fields[k] == old(o.Fields[k]))
 
+// "nothing else": a key that the field loop of one invocation has added is the key of an emitted field of that
+// invocation's struct. Stated as an invariant of the FIELD loop (loop 0), where it is local: keys are added nowhere
+// else, and each invocation of the recursion is verified for every (type, value), so the statement holds at every
+// level of embedding (paper step: induction over the nesting of Go types; which (type, value) pairs are visited is
+// collectEmbedded#ensures[which,what]).
+//@ spec wkOnlyEmittedCBOR(o *structFieldsCBOR, t reflect.Type, v reflect.Value, n int) bool = forallT(k, int, inDom(o.Fields, k) && !old(inDom(o.Fields, k)) ==> exists(j, 0, n, wkEmits(t, v, j, "cbor") && wkKeyInt(t, j) == k))
+//@ spec wkOnlyEmittedJSON(o *structFieldsJSON, t reflect.Type, v reflect.Value, n int) bool = forallT(k, string, inDom(o.Fields, k) && !old(inDom(o.Fields, k)) ==> exists(j, 0, n, wkEmits(t, v, j, "json") && wkKeyStr(t, j, "json") == k))
+
+// "no error without a cause": a populate error needs a declared field whose key is not an integer (CBOR), or whose
+// key is in the input (its value may not decode), or that is mandatory (it may be missing) -- or an embedded
+// struct / interface (the walk of it may fail). In particular a struct whose declared fields are all optional and
+// absent populates without error.
+//@ spec wkCauseCBOR(o *structFieldsCBOR, t reflect.Type, n int) bool = exists(j, 0, n, wkDeclared(t, j, "cbor") && (!atoiOK(wkKeyStr(t, j, "cbor")) || !wkOmit(t, j, "cbor") || old(inDom(o.Fields, wkKeyInt(t, j))))) || exists(j, 0, n, wkMerged(t, j))
+//@ spec wkCauseJSON(o *structFieldsJSON, t reflect.Type, n int) bool = exists(j, 0, n, wkDeclared(t, j, "json") && (!wkOmit(t, j, "json") || old(inDom(o.Fields, wkKeyStr(t, j, "json"))))) || exists(j, 0, n, wkMerged(t, j))
+
 //@ spec embedsOK(s []embedded) bool = forall(k, 0, len(s), dynType(s[k].Type) != 0)
 
 //@ func encoding.collectEmbedded
@@ -279,6 +294,7 @@ package encoding
 //@   ensures[keys-array] refOf(rawMap.Keys) == refOf(old(rawMap.Keys))
 //@   ensures[same-map] rawMap.Fields == old(rawMap.Fields)
 //@   ensures[shrinks] wkShrinksCBOR(rawMap)
+//@   ensures[cause] ret != nil ==> wkCauseCBOR(rawMap, wkT(structType), rvNumField(wkV(structType, structVal)))
 //@   ensures[consumed] ret == nil ==> wkAllConsumedCBOR(rawMap, wkT(structType), rvNumField(wkV(structType, structVal)))
 //@   ensures[mandatory] ret == nil ==> forall(j, 0, rvNumField(wkV(structType, structVal)), wkDeclared(wkT(structType), j, "cbor") && !wkOmit(wkT(structType), j, "cbor") ==> old(inDom(rawMap.Fields, wkKeyInt(wkT(structType), j))))
 //@   modifies rawMap.Keys, mapOf(rawMap.Fields), elems(rawMap.Keys)
@@ -291,14 +307,17 @@ package encoding
 //@   loop 0 invariant forall(j, 0, i, wkDeclared(structType, j, "cbor") && !wkOmit(structType, j, "cbor") ==> old(inDom(rawMap.Fields, wkKeyInt(structType, j))))
 //@   loop 0 invariant refOf(rawMap.Keys) == refOf(old(rawMap.Keys))
 //@   loop 0 invariant embedsOK(embeds)
+//@   loop 0 invariant len(embeds) > 0 ==> exists(j, 0, i, j < rvNumField(structVal) && wkMerged(structType, j))
 //@   loop 0 invariant (embeds == nil || fresh(embeds))
 //@   loop 0 invariant dynType(structType) != 0
 //@   loop 0 decreases rvNumField(structVal) - i
 //@   loop 1 invariant rangeindex >= -1
 //@   loop 1 invariant rangeindex < len(parts) - 1
+//@   loop 1 invariant forall(j, 1, rangeindex + 2, splitAt(tag, ",", j) != "omitempty")
 //@   loop 2 invariant rangeindex >= -1
 //@   loop 2 invariant rangeindex < len(embeds)
 //@   loop 2 invariant embedsOK(embeds)
+//@   loop 2 invariant len(embeds) > 0 ==> exists(j, 0, rvNumField(structVal), wkMerged(structType, j))
 //@   loop 2 invariant noDupInts(rawMap.Keys)
 //@   loop 2 invariant structType == wkT(structType0) && structVal == wkV(structType0, structVal0)
 //@   loop 2 invariant rawMap.Fields == old(rawMap.Fields) && wkShrinksCBOR(rawMap)
@@ -313,6 +332,7 @@ package encoding
 //@   ensures[keys-array] refOf(rawMap.Keys) == refOf(old(rawMap.Keys))
 //@   ensures[same-map] rawMap.Fields == old(rawMap.Fields)
 //@   ensures[shrinks] wkShrinksJSON(rawMap)
+//@   ensures[cause] ret != nil ==> wkCauseJSON(rawMap, wkT(structType), rvNumField(wkV(structType, structVal)))
 //@   ensures[consumed] ret == nil ==> wkAllConsumedJSON(rawMap, wkT(structType), rvNumField(wkV(structType, structVal)))
 //@   ensures[mandatory] ret == nil ==> forall(j, 0, rvNumField(wkV(structType, structVal)), wkDeclared(wkT(structType), j, "json") && !wkOmit(wkT(structType), j, "json") ==> old(inDom(rawMap.Fields, wkKeyStr(wkT(structType), j, "json"))))
 //@   modifies rawMap.Keys, mapOf(rawMap.Fields), elems(rawMap.Keys)
@@ -325,14 +345,17 @@ package encoding
 //@   loop 0 invariant forall(j, 0, i, wkDeclared(structType, j, "json") && !wkOmit(structType, j, "json") ==> old(inDom(rawMap.Fields, wkKeyStr(structType, j, "json"))))
 //@   loop 0 invariant refOf(rawMap.Keys) == refOf(old(rawMap.Keys))
 //@   loop 0 invariant embedsOK(embeds)
+//@   loop 0 invariant len(embeds) > 0 ==> exists(j, 0, i, j < rvNumField(structVal) && wkMerged(structType, j))
 //@   loop 0 invariant (embeds == nil || fresh(embeds))
 //@   loop 0 invariant dynType(structType) != 0
 //@   loop 0 decreases rvNumField(structVal) - i
 //@   loop 1 invariant rangeindex >= -1
 //@   loop 1 invariant rangeindex < len(parts) - 1
+//@   loop 1 invariant forall(j, 1, rangeindex + 2, splitAt(tag, ",", j) != "omitempty")
 //@   loop 2 invariant rangeindex >= -1
 //@   loop 2 invariant rangeindex < len(embeds)
 //@   loop 2 invariant embedsOK(embeds)
+//@   loop 2 invariant len(embeds) > 0 ==> exists(j, 0, rvNumField(structVal), wkMerged(structType, j))
 //@   loop 2 invariant noDupStrings(rawMap.Keys)
 //@   loop 2 invariant structType == wkT(structType0) && structVal == wkV(structType0, structVal0)
 //@   loop 2 invariant rawMap.Fields == old(rawMap.Fields) && wkShrinksJSON(rawMap)
@@ -358,6 +381,7 @@ package encoding
 //@   loop 0 invariant structType == wkT(structType0) && structVal == wkV(structType0, structVal0)
 //@   loop 0 invariant forallT(k, int, old(inDom(rawMap.Fields, k)) ==> inDom(rawMap.Fields, k) && rawMap.Fields[k] == old(rawMap.Fields[k]))
 //@   loop 0 invariant wkAllEmittedCBOR(rawMap, structType, structVal, i)
+//@   loop 0 invariant wkOnlyEmittedCBOR(rawMap, structType, structVal, i)
 //@   loop 0 invariant rawMap.Fields == old(rawMap.Fields)
 //@   loop 0 invariant (refOf(rawMap.Keys) == refOf(old(rawMap.Keys)) || fresh(rawMap.Keys))
 //@   loop 0 invariant embedsOK(embeds)
@@ -366,6 +390,7 @@ package encoding
 //@   loop 0 decreases rvNumField(structVal) - i
 //@   loop 1 invariant rangeindex >= -1
 //@   loop 1 invariant rangeindex < len(parts) - 1
+//@   loop 1 invariant forall(j, 1, rangeindex + 2, splitAt(tag, ",", j) != "omitempty")
 //@   loop 2 invariant rangeindex >= -1
 //@   loop 2 invariant rangeindex < len(embeds)
 //@   loop 2 invariant embedsOK(embeds)
@@ -391,6 +416,7 @@ package encoding
 //@   loop 0 invariant structType == wkT(structType0) && structVal == wkV(structType0, structVal0)
 //@   loop 0 invariant forallT(k, string, old(inDom(rawMap.Fields, k)) ==> inDom(rawMap.Fields, k) && rawMap.Fields[k] == old(rawMap.Fields[k]))
 //@   loop 0 invariant wkAllEmittedJSON(rawMap, structType, structVal, i)
+//@   loop 0 invariant wkOnlyEmittedJSON(rawMap, structType, structVal, i)
 //@   loop 0 invariant rawMap.Fields == old(rawMap.Fields)
 //@   loop 0 invariant (refOf(rawMap.Keys) == refOf(old(rawMap.Keys)) || fresh(rawMap.Keys))
 //@   loop 0 invariant embedsOK(embeds)
@@ -399,6 +425,7 @@ package encoding
 //@   loop 0 decreases rvNumField(structVal) - i
 //@   loop 1 invariant rangeindex >= -1
 //@   loop 1 invariant rangeindex < len(parts) - 1
+//@   loop 1 invariant forall(j, 1, rangeindex + 2, splitAt(tag, ",", j) != "omitempty")
 //@   loop 2 invariant rangeindex >= -1
 //@   loop 2 invariant rangeindex < len(embeds)
 //@   loop 2 invariant embedsOK(embeds)
